@@ -393,9 +393,16 @@ pub fn junk(out: &mut Out, rng: &mut Rng, count: usize) {
         let lay = gen::layout(&doc);
         if lay.len() < 2 || bytes.len() > 800 { continue; }
         // bytes that can never begin a tag of this specification: one-byte ids that are not declared
-        let junk_bytes: Vec<u8> = (0x80u16..=0xfe).map(|b| b as u8).filter(|b| s.get(*b as u64).is_none()).collect();
-        for _ in 0..4 {
-            let t = rng.below(lay.len());
+        // ... and first bytes announcing an id length (1-8 bytes) of which the specification has no id at all
+        let mut junk_bytes: Vec<u8> = (0x80u16..=0xfe).map(|b| b as u8).filter(|b| s.get(*b as u64).is_none()).collect();
+        for len in 2..=8usize {
+            if !s.entries.iter().any(|e| gen::id_bytes(e.id).len() == len) {
+                let lo = 1u16 << (8 - len); for b in lo..(lo << 1) { junk_bytes.push(b as u8); junk_bytes.push(b as u8); }
+            }
+        }
+        for round in 0..6 {
+            // the last tags of the document are as likely as any other (junk shortly before the end of input)
+            let t = if round < 2 { lay.len() - 1 - rng.below(lay.len().min(3)) } else { rng.below(lay.len()) };
             let at = lay[t].off;
             let jn = *rng.pick(&[1usize, 1, 2, 3, 5, 8, 16]);
             // the tag following the junk must still fit every enclosing known-size master after the shift
